@@ -12,7 +12,7 @@ LEVEL = "fault_enumeration"
 RULE = ("Graph cases (JOBS>=2 biased, experiments, teed and slot modes) x schedule tapes x SIGINT/SIGTERM x injection "
         "point = the k-th executed Python line of src/conductor/** or of subprocess.py (inside the Popen constructor) in the main thread while Conductor's own signal "
         "handler is installed (sys.settrace calls the registered handler at that line, honouring the signal mask). "
-        "Quick: k drawn by Hypothesis for generated scenarios + a stride sweep over every 5th line of 3 fixed "
+        "Quick: k drawn by Hypothesis for generated scenarios + a stride sweep over every 3rd line of 3 fixed "
         "scenarios; thorough: every line of the fixed scenarios and of generated ones. Non-trivial = at the injection "
         "some task process was running (started, not exited) or had exited but its completion was not yet processed. "
         "Distinct = SHA-1 of (case, k, signal).")
@@ -92,7 +92,7 @@ def count_lines(case):
 
 
 def enumerate_cases(tier, w, nworkers):
-    stride = 2 if tier == "quick" else 1
+    stride = 3 if tier == "quick" else 1
     idx = 0
     for si, sc in enumerate(FIXED):
         n = count_lines(sc)
